@@ -206,6 +206,15 @@ def run_property(prop, argv):
                         fpath = info['file'] if os.path.isabs(info['file']) else os.path.join(common.COQ, info['file'])
                         th = enclosing_theorem(fpath, info['line'])
                     broken.append({'kind': 'proof', 'name': th or info.get('file', '?'), 'detail': info})
+        # 2b. thorough: independent re-check of the compiled property file and everything it depends on
+        coqchk_axioms = None
+        if tier == 'thorough' and model_ok and not broken:
+            obligations.append('coqchk -o: independent re-check of ' + prop.PROPS_FILE + 'o and its dependencies')
+            try:
+                coqchk_axioms = common.coqchk(prop.PROPS_FILE)
+                discharged += 1
+            except BuildError as e:
+                broken.append({'kind': 'coqchk', 'name': prop.PROPS_FILE, 'detail': e.output[-800:]})
         # 3. hygiene
         bad = common.hygiene()
         obligations.append('hygiene: no Admitted/admit/Axiom/Parameter/Conjecture/guard switches in coq/')
@@ -300,6 +309,7 @@ def run_property(prop, argv):
             'samples': samples[:6], 'traces_validated_against_impl': traces,
             'input_distribution': dist, 'exhaustive': bool(exhaustive and prop.SUITES),
             'known_findings_reported': known_lines,
+            'coqchk_axioms': coqchk_axioms,
         }
         common.write_evidence(prop.ID, tier, seed, coverage, wall, violations,
                               list(getattr(prop, 'ASSUMPTIONS', [])))
